@@ -228,7 +228,7 @@ def hyp_extracts(ctx, n):
         if res:
             ctx.fail(res[0], case, res[1])
     harness.drive(ctx, extract_files(ctx.tier), body, n, salt='extracts')
-    ctx.floor('has-look-alike-table', 0.5, 'extract')
+    ctx.floor('has-look-alike-table', 0.3, 'extract')
 
 
 def tasks(tier, seed):
